@@ -7,7 +7,7 @@ import warnings
 import vt
 vt.use_repo()
 warnings.simplefilter('ignore')   # pydicom warns (once per location: stateful) about odd UIDs
-from vt.api import cond, deep, fam, tier
+from vt.api import cond, deep, fam, tier, pick
 from vt.harness.pdus import (pdu, udi, same, mkstream, sub_ok, build_sub, sample_sub, ae_title_ok, uid_chars,
                              ascii_printable, UIDCH, NAMECH, APPCH, SUB_NAMES, KNOWN_SUB_TYPES)
 
@@ -91,6 +91,7 @@ def assoc_header_ints(pv: int, r1: int, r2: int, w0: int, w7: int, n: int) -> bo
     post: _
     """
     cls = pdu.AAssociateAcPDU if fam('ac') else pdu.AAssociateRqPDU
+    n = pick(n, 0, 16)
     n1, n2 = (n, 0) if fam('which') == 0 else (16, n)
     x = cls(NAMECH[:n1], 'Calling_AE-Title'[:n2], [], pv, r1, r2, (w0, 0, 0, 0, 0, 0, 0, w7))
     ok = rt_pdu(cls, x) and x.total_length() == 74
@@ -246,6 +247,7 @@ def pc_rq_roundtrip(cid: int, r1: int, r2: int, r3: int, r4: int, n: int, rs: in
     post: _
     """
     k = fam('k')
+    n = pick(n, 0, 64)
     x = pdu.PresentationContextItemRQ(cid, pdu.AbstractSyntaxSubItem(UIDCH[:n], rs),
                                       [pdu.TransferSyntaxSubItem(t, rs) for t in TS[:k]], r1, r2, r3, r4)
     ok = rt_item(pdu.PresentationContextItemRQ, x)
@@ -261,6 +263,7 @@ def pc_ac_roundtrip(cid: int, res: int, r1: int, r2: int, r3: int, n: int, rs: i
     pre: 0 <= n <= 64 and 0 <= rs <= 255
     post: _
     """
+    n = pick(n, 0, 64)
     x = pdu.PresentationContextItemAC(cid, res, pdu.TransferSyntaxSubItem(UIDCH[:n], rs), r1, r2, r3)
     ok = rt_item(pdu.PresentationContextItemAC, x)
     deep(ok and res == 4 and n == 0)
@@ -273,6 +276,7 @@ def app_context_roundtrip(n: int, r: int) -> bool:
     pre: 0 <= n <= 64 and 0 <= r <= 255
     post: _
     """
+    n = pick(n, 0, 64)
     ok = rt_item(pdu.ApplicationContextItem, pdu.ApplicationContextItem(UIDCH[:n], r))
     ok = ok and rt_item(pdu.AbstractSyntaxSubItem, pdu.AbstractSyntaxSubItem(UIDCH[:n], r))
     ok = ok and rt_item(pdu.TransferSyntaxSubItem, pdu.TransferSyntaxSubItem(UIDCH[:n], r))
@@ -295,6 +299,7 @@ def assoc_rq_lists(k: int, j: int, id0: int, c: int) -> bool:
     pre: 0 <= k <= 3 and 0 <= j <= 3 and 0 <= id0 <= 250 and 0 <= c <= 0xFFFFFFFF
     post: _
     """
+    k, j = pick(k, 0, 3), pick(j, 0, 3)
     pcs = [pdu.PresentationContextItemRQ(id0 + 2 * i, pdu.AbstractSyntaxSubItem(UIDCH[:20 + i]),
                                          [pdu.TransferSyntaxSubItem(t) for t in TS[:i + 1]]) for i in range(k)]
     subs = [sample_sub(s_, c) for s_ in TRIPLES[fam('triple')][:j]]
@@ -314,6 +319,7 @@ def assoc_ac_lists(k: int, id0: int, res0: int, res1: int, res2: int, mx: int) -
     post: _
     """
     res = (res0, res1, res2)
+    k = pick(k, 0, 3)
     pcs = [pdu.PresentationContextItemAC(id0 + 2 * i, res[i], pdu.TransferSyntaxSubItem(TS[i] if res[i] == 0 else ''))
            for i in range(k)]
     ui = pdu.UserInformationItem([udi.MaximumLengthSubItem(mx), udi.ImplementationClassUIDSubItem(UIDCH[:30])])
@@ -336,6 +342,7 @@ def pdata_roundtrip(cid: int, r: int, d0: bytes, n1: int, n2: int) -> bool:
     post: _
     """
     k = fam('k')
+    n1, n2 = pick(n1, 0, 2), pick(n2, 0, 2)
     pdvs = [pdu.PresentationDataValueItem(cid, d0), pdu.PresentationDataValueItem(255 - cid, APPCH[:n1]),
             pdu.PresentationDataValueItem(1, APPCH[:n2])][:k]
     x = pdu.PDataTfPDU(pdvs, r)
@@ -355,6 +362,7 @@ def pdata_big(i: int, j: int, two: bool, cid: int) -> bool:
     pre: 0 <= i < 8 and 0 <= j < 8 and 0 <= cid <= 255
     post: _
     """
+    i, j = pick(i, 0, 7), pick(j, 0, 7)
     pdvs = [pdu.PresentationDataValueItem(cid, b'\xAA' * BIG[i])]
     if two:
         pdvs.append(pdu.PresentationDataValueItem(cid, b'\x55' * BIG[j]))
